@@ -94,7 +94,15 @@ Definition mstate0 : mstate := {| st_fs := []; st_cache := [] |}.
 
 Inductive event :=
 | Write (p : string) (c : content)      (* the file at p now holds c *)
-| Load (q : request).                   (* a model calls load_cropped_and_aligned_image with arguments q *)
+| Load (q : request)                    (* a model calls load_cropped_and_aligned_image with arguments q *)
+| LoadRaw (p : string).                 (* a direct pyxel.inputs load (load_image / load_table) of the whole file *)
+
+(* what a direct loader call returns from the file as it is now: the stored array, whole *)
+Definition raw_load (fs : fs_t) (p : string) : option mat :=
+  match fs_get fs p with
+  | Some (_, _, a) => Some a
+  | None => None                         (* FileNotFoundError *)
+  end.
 
 Section Memo.
 Variable fitf : content -> request -> option mat.     (* None = raises *)
@@ -128,6 +136,7 @@ Fixpoint run (st : mstate) (h : list event) : list (option mat) :=
   | [] => []
   | Write p c :: t => run {| st_fs := fs_put (st_fs st) p c; st_cache := st_cache st |} t
   | Load q :: t => let '(st', r) := do_load st q in r :: run st' t
+  | LoadRaw p :: t => raw_load (st_fs st) p :: run st t      (* the pyxel.inputs loaders keep no state *)
   end.
 
 End Memo.
@@ -139,6 +148,7 @@ Fixpoint fresh_run (fitf : content -> request -> option mat) (fs : fs_t) (h : li
   | [] => []
   | Write p c :: t => fresh_run fitf (fs_put fs p c) t
   | Load q :: t => compute fitf fs q :: fresh_run fitf fs t
+  | LoadRaw p :: t => raw_load fs p :: fresh_run fitf fs t
   end.
 
 (* histories in which no file is written again after it has been loaded *)
@@ -147,6 +157,20 @@ Fixpoint no_rewrite (loaded : list string) (h : list event) : bool :=
   | [] => true
   | Write p _ :: t => negb (existsb (String.eqb p) loaded) && no_rewrite loaded t
   | Load q :: t => no_rewrite (q_file q :: loaded) t
+  | LoadRaw _ :: t => no_rewrite loaded t
+  end.
+
+(* well-formed histories: every written content is a rectangular array of its stated shape, every request names a
+   detector shape with non-negative sides (what numpy / Geometry guarantee) *)
+Definition wf_content (c : content) : bool := let '(ay, ax, a) := c in wf_matb ay ax a.
+Definition wf_request (q : request) : bool := (0 <=? fst (q_shape q)) && (0 <=? snd (q_shape q)).
+
+Fixpoint wf_history (h : list event) : bool :=
+  match h with
+  | [] => true
+  | Write _ c :: t => wf_content c && wf_history t
+  | Load q :: t => wf_request q && wf_history t
+  | LoadRaw _ :: t => wf_history t
   end.
 
 (* ---------------------------------------------------------------- case files *)
@@ -178,3 +202,30 @@ Definition memo_mismatches algn names memoised maxsize kf (cs : list memo_case) 
 
 Definition memo_violations (cs : list memo_case) : list Z :=
   indices_where (fun c => negb (obs_list_agree (fresh_run spec_fit_of [] (m_hist c)) (m_obs c))) cs 0.
+
+(* ---------------------------------------------------------------- the two loading models' call sites *)
+
+(* photon_collection.load_image and charge_generation.load_charge call load_cropped_and_aligned_image with arguments
+   built from the detector's geometry and their own parameters, scale the result and add it to a bucket.  What each
+   passes where is read from the source (Gen_C20.src_photon_call / src_charge_call). *)
+Inductive geo_src := GRow | GCol.                       (* detector.geometry.row / .col *)
+
+Record model_call := {
+  mc_shape : geo_src * geo_src;        (* the `shape` argument *)
+  mc_py : nat; mc_px : nat;            (* which component of the model's `position` goes to position_y / position_x *)
+  mc_file : bool;                      (* `filename` is the model's file parameter *)
+  mc_align : bool;                     (* `align` is the model's align parameter *)
+  mc_allow : bool;                     (* allow_smaller_array (default True when not passed) *)
+  mc_factor : Z * Z * Z;               (* exponents of time_step, time_scale, multiplier in the scaling factor *)
+  mc_adds : bool                       (* the scaled array is ADDED to the bucket (+= / add_charge_array) *)
+}.
+
+Definition geo_pick (g : geo_src) (rows cols : Z) : Z := match g with GRow => rows | GCol => cols end.
+Definition pos_pick (k : nat) (pos : Z * Z) : Z := match k with O => fst pos | _ => snd pos end.
+
+(* the request a model makes for a detector of rows x cols, its file, position and align parameters *)
+Definition model_request (mc : model_call) (rows cols : Z) (file : string) (pos : Z * Z) (align : option string)
+  : request :=
+  {| q_shape := (geo_pick (fst (mc_shape mc)) rows cols, geo_pick (snd (mc_shape mc)) rows cols);
+     q_file := file; q_px := pos_pick (mc_px mc) pos; q_py := pos_pick (mc_py mc) pos;
+     q_align := align; q_allow := mc_allow mc |}.
